@@ -274,7 +274,8 @@ def stepCore (buggy : Bool) (s : State) : Label → Option State
       | none => none
     else none
   | .close =>
-    if s.closing = true then some { s with closed := true } else none
+    -- `scheduler.close()` is called exactly once, at the end of the watcher's `finally:`
+    if s.closing = true ∧ s.closed = false then some { s with closed := true } else none
   | .kill w =>
     if s.closed = true then
       match s.pc w with
@@ -315,6 +316,43 @@ def Quiescent (f : State → Label → Option State) (s : State) : Prop :=
 
 /-- the event (if any) being processed right now for key `k`: what was started but not finished -/
 def inflight (s : State) (k : Key) : List Ev := (s.started k).drop (s.processed k).length
+
+
+/-! ### A termination measure for the internal labels
+
+`measure s` counts, with weights, the work the system still has to do *by itself*: the event in the
+watcher's hand, every worker instance according to its program counter, every queued item of the
+stream a live instance serves (+1 while the EOS marker has not yet been put), and the pending
+`scheduler.close()`. `Props/C01.internal_terminates` shows that every internal label strictly decreases
+it — so without new arrivals the system reaches quiescence after at most `measure s` segments. -/
+
+def itemW : Item → Nat
+  | .ev _ => 2
+  | .eos => 0
+
+def pcW : Pc → Nat
+  | .pending => 4
+  | .spawned => 3
+  | .waiting => 2
+  | .busy _ => 3
+  | .checked => 2
+  | .leaving _ => 1
+
+def streamW : Option (List Item) → Nat
+  | none => 0
+  | some b => (b.map itemW).sum + (if Item.eos ∈ b then 0 else 1)
+
+/-- weight of one worker instance: its program counter, plus (while it is live) its key's backlog -/
+def instW (s : State) (w : Wid) : Nat :=
+  match s.pc w with
+  | none => 0
+  | some p => pcW p + (if p.live then streamW (s.streams w.key) else 0)
+
+def sumW (f : Wid → Nat) (l : List Wid) : Nat := (l.map f).sum
+
+def measure (s : State) : Nat :=
+  (if s.hand.isSome then 8 else 0) + sumW (instW s) s.pendingQ + sumW (instW s) s.running +
+    (if s.closed then 0 else 1)
 
 /-- raw events of an optional backlog ([] when there is no stream entry) -/
 def backlogOf : Option (List Item) → List Ev
